@@ -24,7 +24,7 @@ import (
 
 // deviation from the default environment
 type dev struct {
-	Kind string `json:"kind"` // none | env | restart | query | clock | map | seed
+	Kind string `json:"kind"` // none | env | tz | restart | query | histquery | restart+histquery | clock | map | seed
 	// env
 	Env []string `json:"env,omitempty"`
 	// restart / query: before block index At (0-based in the history)
@@ -53,7 +53,7 @@ func main() {
 var envNames = []string{"PALOMA_FF_PIGEON_STATUS_UPDATE", "PPROF_LISTEN", "PIGEON_HEALTHCHECK_PORT"} // every literal passed to os.Getenv / os.LookupEnv in the tree; TZ is covered by the tz deviations
 
 func run(r *report.Run, shard, nshards int, replayFile string) {
-	r.Rule = "one fixed ~310-block history (relay lifecycle with score ties, bridge lifecycle, valset lifecycle, status updates with every level) executed through InitChain/FinalizeBlock/Commit; every twin execution deviates in one environment answer (env-var subset, restart or query round at a block boundary, wall-clock skew, one map-range rotation in paloma code) and must reproduce the baseline's per-block digest; a state = one (deviation, block) pair, a transition = one executed block"
+	r.Rule = "one fixed ~310-block history (relay lifecycle with score ties, bridge lifecycle, valset lifecycle, status updates with every level) executed through InitChain/FinalizeBlock/Commit; every twin execution deviates in one environment answer (env-var subset, process time zone, restart / query round against the latest state / query round against three historical versions (warm and right after a restart) at a block boundary, wall-clock skew, one map-range rotation in paloma code) and must reproduce the baseline's per-block digest; a state = one (deviation, block) pair, a transition = one executed block"
 	r.Assumptions = []string{
 		"histories are not enumerated: the quantifier 'all block histories' is covered by this one driver history only",
 		"digest = AppHash + per-tx (code, codespace, data, gas used, events) + block events; tx log strings are excluded (not consensus relevant)",
@@ -123,6 +123,17 @@ func run(r *report.Run, shard, nshards int, replayFile string) {
 		r.Sample(map[string]interface{}{"baseline_last_block": base[len(base)-1]})
 	}
 	devs := h.deviations(r, base)
+	if only := os.Getenv("VERIF_C08_ONLY"); only != "" {
+		// experiments only (never set by bin/check): restrict the menu to one kind
+		var keep []dev
+		for _, d := range devs {
+			if d.Kind == only {
+				keep = append(keep, d)
+			}
+		}
+		devs = keep
+		r.Cap("VERIF_C08_ONLY=" + only)
+	}
 	deadline := r.Deadline(150*time.Second, 27*time.Minute)
 	outcomes := map[string]bool{}
 	for i, d := range devs {
@@ -146,6 +157,7 @@ func run(r *report.Run, shard, nshards int, replayFile string) {
 	r.Extra["deviations_"+fmt.Sprint(shard)] = float64(0)
 	delete(r.Extra, "deviations_"+fmt.Sprint(shard))
 	if shard == 0 {
+		r.Extra["historical_queries_answered_in_shard_0"] = float64(h.histAnswered)
 		r.Extra["deviations_total"] = float64(len(devs))
 		kinds := map[string]int{}
 		for _, d := range devs {
@@ -182,6 +194,7 @@ type history struct {
 	events        map[string]int
 	mapSites      []mapSite // recorded during the baseline in the patched build
 	lastMapCount  int
+	histAnswered  int // queries against historical versions answered without error
 }
 
 type mapSite struct {
@@ -222,6 +235,10 @@ func (h *history) deviations(r *report.Run, base []blockDigest) []dev {
 	for i := 1; i < len(base); i++ {
 		if interesting(i) {
 			boundary = append(boundary, dev{Kind: "restart", At: i}, dev{Kind: "query", At: i})
+			if i > 2 {
+				// a node that serves queries against historical versions, warm and right after a restart
+				boundary = append(boundary, dev{Kind: "histquery", At: i}, dev{Kind: "restart+histquery", At: i})
+			}
 		}
 	}
 	// map iteration (patched runtime only)
@@ -297,8 +314,14 @@ func (h *history) execute(d dev) []blockDigest {
 	defer mapEnd(d, h)
 	out, run := hist.Execute(hist.Hooks{
 		BeforeBlock: func(i int, r *hist.Run) {
-			if d.Kind == "restart" && d.At == i {
+			if (d.Kind == "restart" || d.Kind == "restart+histquery") && d.At == i {
 				r.Restart()
+			}
+			if (d.Kind == "histquery" || d.Kind == "restart+histquery") && d.At == i {
+				// committed heights are 1..r.Height-1... the versions asked for: an early one, a middle one, the one before the latest
+				last := r.Height - 1
+				n := r.Script.QueriesAt(2, (last+1)/2, last-1)
+				h.histAnswered += n
 			}
 			if d.Kind == "query" && d.At == i {
 				r.Script.Queries(r.Height+1, r.Time)
